@@ -69,8 +69,38 @@ def merge(inputs, outs, profile_tag=""):
     return recs
 
 
+CHUNK = int(os.environ.get("VERIF_CHUNK", "30000"))
+
+
 def adjudicate(wd, recs, flags, name, timeout=3000):
-    """TLC decides every record; returns (verdict by id, trails, TlcResult)"""
+    """TLC decides every record (in chunks of CHUNK records per TLC run); returns (verdict by id, trails, result)"""
+    if len(recs) <= CHUNK:
+        return _adjudicate(wd, recs, flags, name, timeout)
+    verdicts, trails, total = {}, collections.Counter(), None
+    for c in range(0, len(recs), CHUNK):
+        v, t, r = _adjudicate(wd, recs[c:c + CHUNK], flags, "%s-%d" % (name, c // CHUNK), timeout)
+        verdicts.update(v)
+        trails.update(t)
+        if total is None:
+            total = r
+        else:
+            total.distinct += r.distinct
+            total.generated += r.generated
+            for k, val in r.model.items():
+                if isinstance(val, int) and k not in ("max_limbs",):
+                    total.model[k] += val
+                elif isinstance(val, list):
+                    total.model[k] += val
+                elif isinstance(val, dict):
+                    for a, n in val.items():
+                        total.model[k][a] = total.model[k].get(a, 0) + n
+            if r.model["max_limbs"] > total.model["max_limbs"]:
+                total.model["max_limbs"], total.model["max_limbs_id"] = r.model["max_limbs"], r.model["max_limbs_id"]
+    return verdicts, trails, total
+
+
+def _adjudicate(wd, recs, flags, name, timeout=3000):
+    """one TLC run over a list of records"""
     path = os.path.join(wd, name + "-records.ndjson")
     core.write_ndjson(path, recs)
     env = {"VERIF_RECORDS": path}
